@@ -52,8 +52,8 @@ RON_SCHEMA = "(core:[var(Major),var(Minor),var(Patch)],extra_core:[var(PreReleas
 RULES = "[(pattern:\"feature/*\",pre_release_label:beta,pre_release_num:3,post_mode:commit)]"
 
 POOLS = {
-    "input_format": ["semver", "pep440", "auto"], "output_format": ["semver", "pep440", "zerv"], "output_template": ["{{ major }}.{{ minor }}", "{{ semver }}", "x", ""],
-    "output_prefix": ["v", "release-", ""], "schema": ["standard", "standard-base", "standard-context", "calver", "standard-base-prerelease-post-dev-context"], "schema_ron": [RON_SCHEMA],
+    "input_format": ["semver", "pep440", "auto"], "output_format": ["semver", "pep440", "zerv"], "output_template": ["{{ major }}.{{ minor }}", "{{ semver }}", "x", "", "a\rb{{ major }}", "\u00e9 {{ semver }}\r\nz"],
+    "output_prefix": ["v", "release-", "", "a\rb", "\u00e9\u6f22-", "x\r\ny"], "schema": ["standard", "standard-base", "standard-context", "calver", "standard-base-prerelease-post-dev-context"], "schema_ron": [RON_SCHEMA],
     "tag_version": ["2.0.0", "v3.1.4-rc.2", "1.0a2"], "distance": [0, 1, 7], "dirty": [True], "no_dirty": [True], "clean": [True],
     "bumped_branch": ["hotfix/zeta", "main", ""], "bumped_commit_hash": ["deadbeefcafe", "g1234567", ""], "bumped_timestamp": [0, 1710511845],
     "major": [0, 9], "minor": [0, 8], "patch": [0, 7], "epoch": [0, 2], "post": [0, 6], "dev": [0, 5], "pre_release_label": ["alpha", "beta", "rc"], "pre_release_num": [0, 4],
